@@ -78,6 +78,14 @@ func (C06) Gen(r *simrt.RNG, tier string) core.Case {
 			p.Out = append(append([]world.Slot{}, p.Out...), world.Slot{Label: world.Label{Type: world.ErrImpl}})
 		}
 	}
+	// a nil pointer of a type whose String method dereferences its receiver, given by type
+	if r.Chance(1, 20) {
+		w.Args = append(w.Args, world.ArgSpec{Kind: world.ArgTyped, Label: world.Label{Type: world.PtrBase + 3}, NilPtr: true})
+		oi := r.Intn(len(w.Ops))
+		if w.Ops[oi].Kind != world.OpCallRedef {
+			w.Ops[oi].Args = append(append([]int{}, w.Ops[oi].Args...), len(w.Args)-1)
+		}
+	}
 	// malformed options
 	if r.Chance(1, 6) {
 		kinds := []string{world.ArgNilOpt, world.ArgNilValue, world.ArgNonFunc, world.ArgNilFunc, world.ArgNilConv}
